@@ -164,7 +164,7 @@ MANIFEST_TEXT = {
                "with calls outstanding or to answer, privileged and not, valid and invalid filters), under allow-all, requested-replies-only and message-refusing policies. The model "
                "predicts for every monitor exactly one copy of every message the bus processes or originates that matches its filter (including refused and undeliverable ones, with "
                "the true sender), and predicts every other client's observations without reference to monitors, so any influence of a monitor on others is a mismatch; a monitor that "
-               "sends must be disconnected; its names, rules and reply obligations must be gone.",
+               "sends must be disconnected; its names, rules and reply obligations must be gone. Monitor filters on unique names are exercised (rule texts with the peers' actual names; a monitor selecting one peer that then leaves while others go on addressing it): an ordinary client's departure leaves every monitor's filter untouched, a departing monitor is swept out of the other monitors' filters; NameLost signals to a connection that is being stripped of its names are left open for filters on its unique name.",
                "DESIGN.md section 4 C18", "deterministic simulation, seeded history search, model-based oracle on recorded history"),
     "C14": _mt("Fault enumeration over the daemon's request handlers: for each sampled (history, operation) — Hello, RequestName (free / queued / replacing), ReleaseName, AddMatch, "
                "RemoveMatch, BecomeMonitor, a routed unicast, a broadcast, a reply consuming a slot, queries — one fault-free execution counts the allocations n made while the bus "
@@ -228,7 +228,7 @@ MANIFEST_TEXT = {
                "file (st_dev, st_ino) the sender attached in that position; a sender announcing more than it attached, exceeding the per-message maximum or announcing descriptors "
                "without negotiation is disconnected and nothing of the message is processed; a sender attaching more than announced is disconnected within pending_fd_timeout of "
                "virtual time once left alone (bounded liveness); the simulated kernel's ledger of every descriptor number installed into the daemon shows each closed exactly once "
-               "(no leak after the connections are gone and the bus is shut down, no double close), and no descriptor reaches a client without a message announcing it. A connection with surplus descriptors pending may go on sending more surplus; its deadline stays one pending_fd_timeout after the bus read the first surplus and is checked exactly after every clock step. Surplus pending per connection is tracked: a further message whose descriptors do not fit beside it in the loader's room (max_message_unix_fds) must get its sender disconnected with nothing processed; recipients' queued descriptors are limited through max_outgoing_unix_fds in a fifth of the plans.",
+               "(no leak after the connections are gone and the bus is shut down, no double close), and no descriptor reaches a client without a message announcing it. A connection with surplus descriptors pending may go on sending more surplus; its deadline stays one pending_fd_timeout after the bus read the first surplus and is checked exactly after every clock step. Surplus pending per connection is tracked: a further message whose descriptors do not fit beside it in the loader's room (max_message_unix_fds) must get its sender disconnected with nothing processed; recipients' queued descriptors are limited through max_outgoing_unix_fds in a fifth of the plans. 15% of the plans have a monitor that did or did not negotiate descriptor passing: it gets the descriptors with its copy, or no copy.",
                "DESIGN.md section 4 C15", "deterministic simulation, seeded history and fault search, model-based oracle plus descriptor ledger in the simulated kernel"),
     "C19": _mt("Seeded search over activation histories through the real daemon with generated service files in a scratch <servicedir>: several senders auto-starting (method calls, "
                "unicast signals, NO_AUTO_START / NO_REPLY variants) and StartServiceByName-ing the same and different activatable names concurrently; the simulated kernel's fork() hands "
